@@ -260,6 +260,43 @@ def run_tb(ctx, exe, drv, n):
         ctx.broken.append(('predicate:' + pred[1], pred[2]))
         ctx.report('impl:' + pred[1], pred[2], {'probe_input': pred[0], 'replay_cmd': 'echo "%s" | %s' % (pred[0], exe), 'failing_input': pred[0]})
 
+# ---- mesh tracker face sets: HalfSpace vs TriangleMesh, brute force over the vertices
+def run_hm(ctx, exe, n):
+    r = ctx.rng; lines = []; kinds = []
+    for i in range(n):
+        kind = [0, 0, 1, 2][i % 4]; rotF = r.randrange(3)
+        hang = vec(r, 3.0); hp = vec(r, 0.5); R = rotxyz(hang); xH = [R[q][0] for q in range(3)]
+        mang = vec(r, 3.0); Rm = rotxyz(mang)
+        if kind == 0: data = [U(r, -0.6, 0.6) for _ in range(12)]; vs = [data[3 * q: 3 * q + 3] for q in range(4)]
+        else:
+            h = [U(r, 0.2, 0.6) for _ in range(3)]; off = vec(r, 0.5); data = h + off + [0.0] * 6
+            vs = [[off[0] + sx * h[0], off[1] + sy * h[1], off[2] + sz * h[2]] for sx in (-1, 1) for sy in (-1, 1) for sz in (-1, 1)] if kind == 1 else \
+                 [[off[q] + (h[0] if q == a else 0.0) * sg for q in range(3)] for a in range(3) for sg in (-1, 1)]
+        # place the mesh so that its deepest vertex is at depth dep inside the half space (x_H > 0): shallow single-vertex penetrations often
+        m = r.random(); dep = U(r, 1e-4, 0.03) if m < 0.5 else (U(r, 0.03, 0.5) if m < 0.9 else -U(r, 0.01, 0.2))
+        wv = [[sum(Rm[a][b] * v[b] for b in range(3)) for a in range(3)] for v in vs]
+        deepest = max(sum(w[a] * xH[a] for a in range(3)) for w in wv)
+        side = [U(r, -0.5, 0.5) for _ in range(3)]
+        pm = [hp[a] + (dep - deepest) * xH[a] + side[a] - sum(side[b] * xH[b] for b in range(3)) * xH[a] for a in range(3)]
+        lines.append('HM ' + fmt([kind, rotF] + hang + hp + mang + pm + data)); kinds.append(kind)
+    rc, out, err = sh([exe], input='\n'.join(lines) + '\n', timeout=900)
+    outs = [l for l in out.split('\n') if l.strip()]
+    if len(outs) != len(lines) or any(o.startswith('!') for o in outs):
+        ctx.broken.append(('harness:C35_probe:HM', 'probe produced %d lines for %d cases / exception %s' % (len(outs), len(lines), [o for o in outs if o.startswith('!')][:1]))); return
+    hist = {'cases': len(lines), 'with_contact': 0, 'single_face_or_vertex_contacts': 0, 'faces_reported': 0}; pred = None
+    for line, o in zip(lines, outs):
+        ok, nrep, nbr, miss, extra, margin = parse_floats(o)
+        if nbr > 0: hist['with_contact'] += 1
+        if 0 < nbr <= 6: hist['single_face_or_vertex_contacts'] += 1
+        hist['faces_reported'] += int(nrep)
+        if margin > 1e-9 and (miss > 0 or extra > 0 or ok != 1.0) and pred is None:
+            pred = (line, 'HalfSpaceTriangleMesh:face-set-differs-from-brute-force', 'reported %d faces, brute force over the vertices %d faces: %d missing, %d extra' % (nrep, nbr, miss, extra))
+    ctx.add_cases(len(lines), hist['with_contact'], [{'mode': 'HM', 'case': lines[0][:200]}])
+    ctx.extra['mesh_face_sets'] = hist
+    if pred:
+        ctx.broken.append(('predicate:' + pred[1], pred[2]))
+        ctx.report('impl:' + pred[1], pred[2], {'probe_input': pred[0], 'replay_cmd': 'echo "%s" | %s' % (pred[0], exe), 'failing_input': pred[0]})
+
 def run(ctx):
     ctx.build_repo()
     ok = ctx.coq_props(PROPS)
@@ -321,6 +358,7 @@ def run(ctx):
                 if order_bad: ctx.broken.append(('correspondence:GS:surface-order', 'half space not reported as surface 1: %s' % (order_bad,)))
     run_cc(ctx, exe, drv, 120 if quick else 1200)
     run_tb(ctx, exe, drv, 150 if quick else 1500)
+    run_hm(ctx, exe, 400 if quick else 4000)
     rc, out, err = sh([exe], input='SEARCH %d %d\n' % (ctx.seed % 1000003, 3000 if quick else 60000), timeout=1800)
     fails = [l for l in out.split('\n') if l.startswith('FAIL')]; done = [l for l in out.split('\n') if l.startswith('DONE')]
     ctx.extra['search'] = {'predicate_evaluations': int(done[0].split()[1]) if done else 0, 'failures': int(done[0].split()[2]) if done else -1}
